@@ -113,6 +113,12 @@ def gen_tree_spec(rng, kind, thorough):
         files.append([files[0][0], files[0][1] + rng.randint(1, 300)])
     rng.shuffle(files)
     files = files[:9]
+    if rng.random() < 0.35:
+        # the first night of the BOSS spectrographs: MJD 55025 itself is NOT "before MJD 55025" (the fibre count of such a
+        # plate comes from platelist.fits, not from the 640 of SDSS-I/II)
+        k = rng.randrange(len(files))
+        if [files[k][0], 55025] not in files:
+            files[k][1] = 55025
     npixs = rng.sample(range(3, 15), min(len(files), 8))
     nper = rng.randint(2, 4)
     out = []
